@@ -1,8 +1,8 @@
 package main
 
 import (
-	"go/constant"
 	"fmt"
+	"go/constant"
 	"go/types"
 	"sort"
 	"strings"
@@ -297,8 +297,8 @@ func rootInferenceRule(c *Ctx, r *RuleResult) {
 				continue
 			}
 			want := map[string]bool{
-				"len(SchemaDocument.Schema) == 0":            false,
-				"Schema." + root + " == nil":                 false,
+				"len(SchemaDocument.Schema) == 0":                    false,
+				"Schema." + root + " == nil":                         false,
 				fmt.Sprintf("lookup(Schema.Types[%q]) != nil", root): false,
 			}
 			var extra []string
